@@ -129,8 +129,12 @@ func cmdFunc(args []string) {
 			if vc.GenErr != "" {
 				fmt.Println("   GENERATOR ERROR:", vc.GenErr)
 			}
+			seenSE := map[string]bool{}
 			for _, se := range vc.SpecErrors {
-				fmt.Println("   SPEC ERROR:", se)
+				if !seenSE[se] && len(seenSE) < 8 {
+					seenSE[se] = true
+					fmt.Println("   SPEC ERROR:", se)
+				}
 			}
 			if *verbose {
 				for _, n := range vc.Notes {
